@@ -260,6 +260,10 @@ impl GatewayBinder {
         if let Some(p) = self.inst.get("Payloads").and_then(|x| x.get(name)) {
             let len = p["len"].as_u64().unwrap() as usize;
             let pat = p["pat"].as_str().unwrap_or("asc");
+            // a 32-byte payload that IS the Keccak-256 hash of another payload of the instance
+            if let Some(of) = pat.strip_prefix("hashof:") {
+                return keccak(&self.payload_bytes(of)).to_vec();
+            }
             (0..len)
                 .map(|i| match pat {
                     "zero" => 0u8,
